@@ -116,8 +116,18 @@ def run(tier):
         pre = r.choice(PREAMBLES)
         p0, p1 = pre & 0xFF, pre >> 8
         s = [r.choice([p0, p1, 0, 1, 8, 0xFF, r.randrange(256)]) for _ in range(r.randint(1, 40))]
-        # keep declared payload sizes small: byte 6/7 of anything that could be a header are not controlled, so cap by construction
-        s = [b if (i % 8) not in (6, 7) else 0 for i, b in enumerate(s)]
+        # stay inside the model's domain (message length < 2^32, no uint32 wrap-around): whatever could be read as a
+        # header - the two preamble bytes at ANY offset - gets the two high size bytes zeroed; zeroing can create new
+        # candidates when a preamble byte is 0, hence the fixpoint
+        changed = True
+        while changed:
+            changed = False
+            for j in range(len(s) - 1):
+                if s[j] == p0 and s[j + 1] == p1:
+                    for k in (j + 6, j + 7):
+                        if k < len(s) and s[k] != 0:
+                            s[k] = 0
+                            changed = True
         cases.append(("bad", pre, rand_chunking(r, s), None))
     for i in range(300 if thorough else 60):
         pre = r.choice(PREAMBLES)
